@@ -215,3 +215,248 @@ HARMLESS = [
     ('falcon/routing/static.py', '    size = st.st_size\n    if req_range is None:\n        return fh, size, None\n',
      '    file_size = st.st_size\n    size = file_size\n    if req_range is None:\n        return fh, file_size, None\n'),
 ]
+
+
+# ---------------------------------------------------------------------------
+# StaticRoute.__call__: containment as a call-site obligation at every
+# _open_file(p); everything else is a 404; 304 / 206 / Content-Length wiring.
+
+import datetime as _dt
+import os.path as _osp
+import re as _re
+
+import z3 as _z3
+
+from pyvc.core import SStr, mk_bool, mk_str, _s, Unreached
+
+SR = M + ':StaticRoute'
+SEP = '/'
+
+
+def _posix_join(a, b):
+    """posixpath.join(a, b) for two arguments, exactly as in the stdlib source."""
+    a_t, b_t = _s(a), _s(b)
+    sep = _z3.StringVal(SEP)
+    return mk_str(_z3.If(_z3.PrefixOf(sep, b_t), b_t,
+                         _z3.If(_z3.Or(_z3.Length(a_t) == 0, _z3.SuffixOf(sep, a_t)), _z3.Concat(a_t, b_t), _z3.Concat(a_t, sep, b_t))), 'str')
+
+
+NORMPATH = _z3.Function('os.path.normpath', _z3.StringSort(), _z3.StringSort())
+
+
+@stubclass
+class _OpenFile:
+    """Stub of _open_file: the containment obligation lives at every call site."""
+
+    def __init__(self, v, directory, fallback):
+        self.v, self.directory, self.fallback = v, directory, fallback
+        self.opened = []
+        self.fh = None
+        self.stop_after_open = False
+
+    def __call__(self, path):
+        v = self.v
+        d = self.directory
+        # inside: below directory + separator (the root directory already ends with it), no ".." anywhere
+        below = Or(path.startswith(d + SEP), And(d.endswith(SEP), path.startswith(d)))
+        inside = And(below, Not(_contains(path, '..')))
+        is_fallback = (self.fallback is not None) and (path is self.fallback or path == self.fallback)
+        v.check('only-opens-files-inside-the-directory-or-the-fallback', Or(is_fallback, inside))
+        self.opened.append(path)
+        if self.stop_after_open and (self.fallback is None or len(self.opened) == 2):
+            v.ctx.done()  # containment harness: nothing after the last possible open matters
+        if v.choose(2, 'file-exists?') == 0 or self.stop_after_open:
+            v.ctx.raise_py(v.real('falcon:HTTPNotFound'))
+        size = v.int('st_size', 0)
+        self.fh = GhostFile(v, size)
+        return self.fh, _Stat(size)
+
+
+def _contains(s, sub):
+    if isinstance(s, SStr):
+        return s.contains(sub)
+    return sub in s
+
+
+@stubclass
+class _SReq:
+    def __init__(self, v, path, method, plain=False):
+        self.path = path
+        self.method = method
+        if plain:
+            self.if_modified_since = self.range_unit = self.range = None
+            return
+        ims = v.choose(3, 'if-modified-since')
+        self.if_modified_since = [None, _dt.datetime(1960, 1, 1, tzinfo=_dt.timezone.utc), _dt.datetime(2100, 1, 1, tzinfo=_dt.timezone.utc)][ims]
+        ru = v.choose(3, 'range-unit')
+        self.range_unit = [None, 'bytes', 'items'][ru]
+        if ru == 0:
+            self.range = None
+        else:
+            f, l = v.int('first'), v.int('last')
+            v.assume(range_wf(f, l))
+            self.range = (f, l)
+
+
+@stubclass
+class _SResp:
+    def __init__(self, v):
+        self.v = v
+        self.status = '200 OK'
+        self.stream = None
+        self.stream_length = None
+        self.headers_set = {}
+        self.content_range = None
+        self.last_modified = None
+        self.content_type = None
+        self.accept_ranges = None
+        self.downloadable_as = None
+        self.options = self
+
+        @stubclass
+        class _Types:
+            def get(self_, suffix, default=None):
+                return v.str('media_type')
+
+        self.static_media_types = _Types()
+
+    def set_header(self, name, value):
+        self.headers_set[name] = value
+
+    def set_stream(self, stream, length):
+        self.stream, self.stream_length = stream, length
+
+
+def _static_setup(reg, ex):
+    import os
+
+    reg.add_model(os.path.normpath, lambda I, p: mk_str(NORMPATH(_s(p)), 'str') if isinstance(p, SStr) else os.path.normpath(p))
+    reg.add_model(os.path.join, lambda I, a, b: _posix_join(a, b))
+    reg.add_model(os.path.splitext, lambda I, p: (I.ctx.fresh_str('root'), I.ctx.fresh_str('ext')))
+    reg.add_model(os.path.basename, lambda I, p: I.ctx.fresh_str('basename'))
+    SRcls = __import__('falcon.routing.static', fromlist=['StaticRoute']).StaticRoute
+    pat = SRcls._DISALLOWED_CHARS_PATTERN
+
+    def search(I, s):
+        # a regular expression search is an opaque predicate of its argument
+        return object() if I.ctx.choose(2, 'disallowed-chars?') == 1 else None
+
+    reg.add_method_model(pat, 'search', search)
+    # str.strip / str.rstrip are total functions returning a str (uninterpreted)
+    reg.inline.update([M + ':_set_range', M + ':_BoundedFile.__init__'])
+
+
+def _static_containment(v):
+    """All request paths (symbolic strings): every _open_file call site is dominated by the containment facts."""
+    directory = v.str('directory')
+    # __init__ normal form: normpath'ed absolute directory: starts with the separator and no '..' survives
+    v.assume(directory.startswith(SEP))
+    v.assume(Not(_contains(directory, '..')))
+    has_fb = v.choose(2, 'fallback?')
+    fallback = v.str('fallback_filename') if has_fb else None
+    prefix = v.str('prefix')
+    v.assume(And(prefix.startswith(SEP), prefix.endswith(SEP)))
+    path = v.str('path')
+    route = v.obj(SR, _directory=directory, _fallback_filename=fallback, _prefix=prefix, _downloadable=False)
+    if v.concrete:
+        return  # the file system is a stub in this harness; concrete replay is not meaningful
+    req = _SReq(v, path, 'GET', plain=True)
+    resp = _SResp(v)
+    opener = _OpenFile(v, directory, fallback)
+    opener.stop_after_open = True
+    v.registry.stubs[M + ':_open_file'] = lambda I, p: opener(p)
+    out = v.call(route, req, resp)
+    # only reached when no file was opened at all
+    v.check('rejected-paths-are-404', out.exc is not None and out.exc.isa(v.real('falcon:HTTPNotFound')) and not opener.opened)
+    v.cover('rejected')
+
+
+def _static_harness(v):
+    """After a file is opened: 304 / 206 / Content-Length wiring, for a concrete well-formed path."""
+    directory = '/srv/static'
+    has_fb = v.choose(2, 'fallback?')
+    fallback = '/srv/static/index.html' if has_fb else None
+    prefix = '/files/'
+    path = '/files/docs/report.txt'
+    method = v.one_of('method', 'GET', 'OPTIONS')
+    route = v.obj(SR, _directory=directory, _fallback_filename=fallback, _prefix=prefix, _downloadable=bool(v.choose(2, 'downloadable?')))
+    req = _SReq(v, path, method)
+    resp = _SResp(v)
+    if v.concrete:
+        return  # the file system is a stub in this harness; concrete replay is not meaningful
+    opener = _OpenFile(v, directory, fallback)
+    v.registry.stubs[M + ':_open_file'] = lambda I, p: opener(p)
+    HTTPNotFound = v.real('falcon:HTTPNotFound')
+    H416 = v.real('falcon:HTTPRangeNotSatisfiable')
+    out = v.call(route, req, resp)
+    if method == 'OPTIONS':
+        v.check('options-answers-allow-get-without-opening-anything',
+                out.exc is None and resp.headers_set.get('Allow') == 'GET' and not opener.opened and resp.stream is None)
+        return
+    if out.exc is not None:
+        v.check('anything-else-is-a-404-or-a-416', out.exc.isa(HTTPNotFound) or out.exc.isa(H416))
+        v.check('failure-sets-no-stream', resp.stream is None)
+        if out.exc.isa(H416):
+            v.check('416-only-for-a-bytes-range', req.range_unit == 'bytes')
+        return
+    v.check('a-file-was-opened', len(opener.opened) >= 1)
+    not_modified = req.if_modified_since is not None and req.if_modified_since.year > 2000
+    if not_modified:
+        v.check('not-modified-yields-304-without-a-body', resp.status == v.real('falcon:HTTP_304') and resp.stream is None)
+        return
+    v.check('modified-or-unconditional-serves-the-file', resp.stream is not None and resp.status != v.real('falcon:HTTP_304'))
+    ranged = req.range_unit == 'bytes' and req.range is not None
+    if not ranged:
+        v.check('range-ignored-unless-unit-is-bytes', resp.stream is opener.fh and resp.content_range is None and resp.status == '200 OK')
+        v.check('content-length-is-file-size', resp.stream_length == opener.fh.size)
+    else:
+        partial = resp.content_range is not None
+        v.check('206-iff-a-content-range-was-produced', (resp.status == v.real('falcon:HTTP_206')) == partial)
+        if partial:
+            cr = resp.content_range
+            v.check('content-length-matches-content-range', resp.stream_length == cr[1] - cr[0] + 1)
+    v.check('accept-ranges-advertised', resp.accept_ranges == 'bytes')
+    v.cover('served')
+
+
+for _fb in (0, 1):
+    harness(PROP, SR + '.__call__', name='static_containment[fallback=%d]' % _fb, setup=_static_setup, fix={'fallback?': _fb})(_static_containment)
+for _fb in (0, 1):
+    harness(PROP, SR + '.__call__', name='static_call[fallback=%d]' % _fb, setup=_static_setup, fix={'fallback?': _fb}, max_paths=60000)(_static_harness)
+
+
+@harness(PROP, SR + '.match')
+def static_match(v):
+    prefix = v.str('prefix')
+    path = v.str('path')
+    has_fb = v.choose(2, 'fallback?')
+    route = v.obj(SR, _prefix=prefix, _fallback_filename=(v.str('fb') if has_fb else None))
+    if not v.concrete:
+        v.assume(prefix.endswith(SEP))
+    elif not prefix.endswith(SEP):
+        return
+    out = v.call(route, path)
+    v.check('no-exception', out.exc is None)
+    if out.exc is None:
+        under = path.startswith(prefix) if isinstance(path, SStr) else path.startswith(prefix)
+        bare = (path == prefix[:-1])
+        v.check('matches-exactly-paths-under-the-prefix', Iff(out.value, Or(under, And(bool(has_fb), bare))))
+
+
+KILLS += [
+    ('falcon/routing/static.py', "        if '..' in file_path or not file_path.startswith(self._directory):\n            raise falcon.HTTPNotFound()\n", "", 'only-opens-files-inside-the-directory-or-the-fallback'),
+    ('falcon/routing/static.py', "        if normalized.startswith(self._DISALLOWED_NORMALIZED_PREFIXES):\n            raise falcon.HTTPNotFound()\n", "", 'only-opens-files-inside-the-directory-or-the-fallback'),
+    ('falcon/routing/static.py', "        if req.if_modified_since is not None and last_modified <= req.if_modified_since:", "        if req.if_modified_since is not None and last_modified >= req.if_modified_since:", 'not-modified-yields-304-without-a-body'),
+    ('falcon/routing/static.py', "        req_range = req.range if req.range_unit == 'bytes' else None\n", "        req_range = req.range\n", 'range-ignored-unless-unit-is-bytes'),
+    ('falcon/routing/static.py', "        resp.set_stream(stream, length)\n", "        resp.set_stream(stream, st.st_size)\n", 'content-length-matches-content-range'),
+]
+ASSUMPTIONS = [
+    'os.path.join(a, b) is posixpath.join for two arguments (encoded exactly from its source); os.path.normpath is an uninterpreted total function str -> str',
+    'the configured directory is the normal form established by StaticRoute.__init__ (absolute, normpath-ed: no ".." inside)',
+    'regular files, no symbolic links (lexical containment is what is proved); st_mtime is a fixed instant',
+    'the regular expression search for disallowed characters is an opaque predicate of the path',
+    'Request.range satisfies the post-condition proved in C09 (three RFC 9110 forms)',
+]
+NOT_DECIDED = ['the body bytes of a whole-file response equal the file content: follows from the file object being handed over unread at offset 0 (checked) and the server reading it',
+               'StaticRouteAsync / _AsyncFileReader delegation (three lines, by reading)']
+TRUSTED = ['ghost stubs GhostFile, _OpenFile, _SReq, _SResp in contracts/C16_static.py']
